@@ -79,6 +79,11 @@ CHECKS = {
     text="Exhaustive product of overload-set size 1..3 x trailing defaults 0..2 x suffix policy {none, function_suffix, default_arg_suffix} x {plain, 2 template instantiations} x {no fortran_generic, 2 entries with / without explicit suffix} x {free function, class method} (6 C++ names per library; libraries vary namespace, C_prefix and wrapper set), plus random mixes in the thorough tier: every callable signature must have exactly one external C symbol with the predicted name bound to the predicted arity, exactly one Fortran specific, generic interfaces / type-bound generics listing exactly the specifics of their C++ name, and no duplicate symbol, module procedure, PyMethodDef or luaL_Reg entry.",
     note="Trusted: naming model (vf/libgen/libs.py:assign_names), nm, regex readers of the Fortran module. C++ names are lower case (un_camel = identity). Four known findings (template overload interactions) are listed.",
     design="DESIGN.md §2 C08"),
+ "C03": dict(
+    technique="generated extension compiled with ASan+UBSan together with an instrumented subject library, imported by CPython 3.12 under LD_PRELOAD=libasan and driven with positive, negative and repeated calls; library RECV/SEND trace, returned objects, exception classes and reference-count deltas compared with a reference model",
+    text="numpy-free libraries (scalars of all native types, bool, char*/std::string in/out/result, list-mode arrays in/out/inout, overloads, default arguments, function templates, classes) for language c and c++: every function is called with every split into positional prefix + keywords (all keyword orders up to 3), every default arity, battery values; negative calls (wrong arity, each argument replaced by every other type class, unknown keyword, duplicate positional+keyword, no-match on overloaded names) must raise TypeError/ValueError and must not reach the library; sys.getrefcount of fresh argument objects must not drift over 2000 calls on the success and on the failure path; classes are followed through constructor (positional and keyword), methods, static methods and del with object serials. ~2.4k operations quick, ~4.7k thorough.",
+    note="Trusted: reference model, documented Python API (result followed by out/inout arguments), CPython 3.12. Not covered: numpy mode (no numpy in the sandbox), size_t values above SSIZE_MAX ('n' unit), keyword calls that skip an earlier defaulted argument (documented as unsupported).",
+    design="DESIGN.md §2 C03"),
 }
 
 NOT_APPLICABLE = []
